@@ -12,7 +12,7 @@ MANIFEST = {
              "killed-bank-revived); for every portfolio of any length under Valid weights initial health >= 0 implies maintenance "
              "health >= 0 at equal prices, with and without e-mode. Tied to the real code by differential execution of the "
              "validators (level A) and of sequences of real admin instructions in the sim runtime (level C) with a Valid-oracle on "
-             "the real bank bytes after every successful instruction."),
+             "the real bank bytes after every successful instruction and a buffer-oracle on the health components cached by the real risk engine."),
     "design_ref": "DESIGN.md §7 C13, §8 F3 F4",
     "technique": "Coq proofs (validator soundness, invariant preservation by induction over request lists, monotonicity of the weighted sums) + model/implementation correspondence at levels A and C",
 }
@@ -22,12 +22,14 @@ THEOREMS = [
     "C13_clone_emode_refuted", "C13_clone_emode_restricted", "C13_configure_revalidates_emode",
     "C13_no_request_kills", "C13_killed_revived_refuted", "C13_killed_stays_killed_except_configure",
     "C13_reconcile_keeps_init_le_maint", "C13_buffer", "C13_buffer_with_emode", "C13_buffer_without_emode",
+    "C13_init_discount_in_unit_interval",
 ]
 RULE = ("level A: configs with every weight at 0, 1, 2, equal, +-1 bit and random, isolated/collateral, oracle ages around the minimum, "
         "valid and broken curves; e-mode entries with weights at the leverage-cap boundary +-3 bits for caps 15/20 and random caps, "
         "duplicate/unsorted/empty tags; option arguments for Bank::configure incl. every operational state; level C: sequences of up to 7 "
         "real admin instructions (add, configure, interest-only, limits-only, e-mode, clone, group caps, staked init/edit/propagate, "
-        "bankruptcy kill). Non-trivial = at least one accepting validator / at least two successful instructions; distinct = different case line")
+        "curve migration, bankruptcy kill) interleaved with health probes (fixture balances at fixed prices evaluated by the real lending_account_pulse_health, "
+        "compared with the model's Initial and Maintenance sums). Non-trivial = at least one accepting validator / at least two successful instructions; distinct = different case line")
 ASSUMPTIONS = [
     "account validation (signers, has_one, seeds) of the admin instructions is out of scope here (C08); handlers are modelled from accepted accounts on",
     "oracle-account validation (validate_oracle_setup) is an external input of the model for propagate / permissionless add",
@@ -47,6 +49,7 @@ U32 = (1 << 32) - 1
 U64 = (1 << 64) - 1
 I128_MIN, I128_MAX = -(1 << 127), (1 << 127) - 1
 KNOWN_KEYS = ("killed-bank-revived", "emode-clone-unvalidated")
+STEP_KINDS = ("ADD", "ADS", "CFG", "IRO", "LIM", "EM", "CL", "GC", "SSI", "SSE", "PR", "KILL", "HP", "MIG")
 ORACLE_MIN_AGE = 10
 NOW = 1_700_000_000
 
@@ -249,6 +252,9 @@ def gen_entries(rng, lwi, lwm, cap_i, cap_m, valid=True):
     bi, bm = basis(cap_i), basis(cap_m)
     k = rng.choice([0, 1, 2, 3, 5, 10])
     tags = rng.sample(range(1, 60), k)
+    for j, hot in enumerate((5, 7)):        # tags 5 and 7 are the ones banks carry in the sequences: make matches frequent
+        if j < k and hot not in tags and rng.random() < 0.7:
+            tags[j] = hot
     es = []
     for tg in tags:
         hi_i, hi_m = max_cw(lwi, bi), max_cw(lwm, bm)
@@ -402,9 +408,18 @@ def gen_seq(rng, tier):
         kinds = ["ADD0", "ADD1", "EM0", "CL01"]
     elif script < 0.8:
         kinds = ["ADD0", "KILL0", "CFG0"]
-    elif script < 0.9:
+    elif script < 0.86:
         kinds = ["SSI", "PR"]
-    pool = ["CFG", "CFG", "CFG", "IRO", "LIM", "EM", "EM", "CL", "GC", "SSI", "SSE", "PR", "PR", "KILL", "ADD"]
+    elif script < 0.9:
+        kinds = ["MIG"]
+    else:
+        kinds = ["ADD0", "ADD1", "EM0", "HP"]
+    if kinds == ["MIG"]:                       # a legacy-curve bank to migrate (plateau / max also beyond the u32 scale)
+        pl = rng.choice([rng.randrange(1, 3 * ONE), 10 * ONE, 11 * ONE])
+        cfg2["ir"] = {"ct": 0, "opt": rng.choice([1, ONE - 1, rng.randrange(1, ONE)]), "pl": pl,
+                      "mx": pl + rng.choice([1, rng.randrange(1, 3 * ONE), 12 * ONE]), "fees": [gen_fee(rng) for _ in range(4)],
+                      "zero": rng.randrange(0, U32), "hundred": rng.randrange(0, U32), "pts": gen_points(rng, True)[2]}
+    pool = ["CFG", "CFG", "CFG", "IRO", "LIM", "EM", "EM", "CL", "GC", "SSI", "SSE", "PR", "PR", "KILL", "ADD", "HP", "HP", "HP", "MIG"]
     while len(kinds) < n:
         kinds.append(rng.choice(pool))
     caps = (CAP_I, CAP_M)
@@ -432,7 +447,7 @@ def gen_seq(rng, tier):
             i = int(k[2]) if len(k) > 2 else i
             b = state[i] or {"lwi": ONE, "lwm": ONE}
             es = gen_entries(rng, b["lwi"], b["lwm"], caps[0], caps[1], rng.random() < 0.75)
-            steps.append(line("EM", i, rng.choice([0, 1, 5, 7, 65535]), entries_toks(es)))
+            steps.append(line("EM", i, rng.choice([0, 5, 5, 7, 7, 65535]), entries_toks(es)))
         elif k.startswith("CL"):
             if len(k) > 2:
                 a, b = int(k[2]), int(k[3])
@@ -453,7 +468,26 @@ def gen_seq(rng, tier):
         elif k.startswith("KILL"):
             i = int(k[4]) if len(k) > 4 else rng.choice([0, 1])
             steps.append(line("KILL", i))
+        elif k == "HP":
+            steps.append(gen_probe(rng))
+        elif k == "MIG":
+            steps.append(line("MIG", rng.choice([2, 2, 0, 1])))
     return line(NOW, cfg_toks(cfg2), flags2, len(steps), steps)
+
+
+def gen_probe(rng):
+    """health probe: 1..3 balances on distinct banks, at least one asset; moderate amounts and prices so that
+    no evaluation overflows; amounts sometimes tiny (rounding) and liabilities sized near the collateral value"""
+    k = rng.choice([1, 2, 2, 3, 3])
+    idx = rng.sample([0, 1, 2], k)
+    parts = []
+    for j, i in enumerate(idx):
+        liab = 0 if j == 0 else rng.choice([0, 1, 1])
+        tokens = rng.choice([1, 7, 10 ** 6, rng.randrange(1, 10 ** 9), rng.randrange(1, 10 ** 13)])
+        shares = tokens * ONE + rng.choice([0, 0, rng.randrange(0, ONE)])
+        price = rng.choice([ONE, fx(Fraction(rng.randrange(1, 100000), 100)), rng.randrange(1, 1 << 60), 1, 0])
+        parts += [i, liab, shares, price]
+    return line("HP", k, parts)
 
 
 FINDING_CASES = {
@@ -486,8 +520,8 @@ def finding_lines():
 
 
 def suites(rng, tier):
-    na = {"quick": 3000, "thorough": 40000, "search": 6000}[tier]
-    nc = {"quick": 1500, "thorough": 20000, "search": 3000}[tier]
+    na = {"quick": 4000, "thorough": 45000, "search": 8000}[tier]
+    nc = {"quick": 2500, "thorough": 28000, "search": 5000}[tier]
     la, da = [], {}
     for _ in range(na):
         k, l = gen_level_a(rng)
@@ -498,7 +532,7 @@ def suites(rng, tier):
     dc = {}
     for l in lc:
         for tok in l.split():
-            if tok in ("ADD", "ADS", "CFG", "IRO", "LIM", "EM", "CL", "GC", "SSI", "SSE", "PR", "KILL"):
+            if tok in STEP_KINDS:
                 dc[tok] = dc.get(tok, 0) + 1
     return [{"suite": "config", "name": "config-levelA", "lines": la, "distribution": da},
             {"suite": "cfgsim", "name": "cfgsim-levelC", "lines": lc, "distribution": dc}]
@@ -661,7 +695,7 @@ def oracle_cfgsim(case, impl):
     banks = {2: b2}
     t = case.split()
     # recover the step kinds from the case line
-    kinds = [x for x in t if x in ("ADD", "ADS", "CFG", "IRO", "LIM", "EM", "CL", "GC", "SSI", "SSE", "PR", "KILL")]
+    kinds = [x for x in t if x in STEP_KINDS]
     viol = []
 
     def em_bad(b):
@@ -669,6 +703,15 @@ def oracle_cfgsim(case, impl):
 
     em_ok = {2: em_bad(b2) is None}
     for kind, seg in zip(kinds, segs[1:]):
+        if seg.startswith("H "):
+            ai, li, am, lm = (int(x) for x in seg.split()[1:5])
+            if li == 0 and lm > 0:
+                continue            # the Initial evaluation itself failed (nothing cached); not a buffer statement
+            if ai > am or lm > li or (li <= ai and lm > am):
+                viol.append({"key": "no-liquidation-buffer",
+                             "what": f"real risk engine at equal (fixed) prices: init assets {ai} liabs {li}, maint assets {am} liabs {lm}: "
+                                     "the Initial requirement is not the stricter one"})
+            continue
         if not seg.startswith("OK "):
             continue
         s = seg.split()
@@ -720,7 +763,7 @@ def nontrivial(suite, case, impl):
         if op in ("V", "SV", "EV", "CONF", "UNF", "REC"):
             return impl.startswith("OK")
         return not impl.startswith(("E", "PANIC"))
-    return impl.count("| OK") >= 2
+    return impl.count("| OK") + impl.count("| H ") >= 2
 
 
 def broken_explained_by_known(b, known_keys):
